@@ -153,6 +153,13 @@ inductive SErr where
 
 abbrev SM := Except SErr
 
+instance : DecidableEq (SM SVal) := fun a b =>
+  match a, b with
+  | .ok x, .ok y => if h : x = y then isTrue (by rw [h]) else isFalse (by intro h'; cases h'; exact h rfl)
+  | .error x, .error y => if h : x = y then isTrue (by rw [h]) else isFalse (by intro h'; cases h'; exact h rfl)
+  | .ok _, .error _ => isFalse (by intro h; cases h)
+  | .error _, .ok _ => isFalse (by intro h; cases h)
+
 /-- a string as a SQL value of the dialect: Oracle has no empty string (`'' IS NULL`). -/
 def strVal (d : Dialect) (s : List Char) : SVal :=
   if d = .oracle ∧ s = [] then .null else .str s
@@ -449,6 +456,24 @@ def sqliteSliceT (e : Sql) (start stop : Arg) : Sql := .slice e start.sql stop.s
 /-- what the dialect's builder makes of the translator node `['STRING_SLICE', e, start, stop]` -/
 def sliceFor (d : Dialect) (e : Sql) (start stop : Arg) : Sql :=
   if d = .sqlite then sqliteSliceT e start stop else stringSliceT d e start stop
+
+/-- a non-constant bound must not carry the tag 'VALUE' (else `STRING_SLICE` reads it as a constant) -/
+def Arg.wf : Arg → Prop
+  | .expr x => x.isValue = false
+  | _ => True
+
+/-- the Python value a bound denotes in an environment (`none` = omitted) -/
+def Arg.denotes (d : Dialect) (env : Env) : Arg → Option Int → Prop
+  | .omitted, v => v = none
+  | .const c, v => v = some c
+  | .expr x, v => ∃ i, eval d env x = .ok (.int i) ∧ v = some i
+
+def Arg.isConstStart : Arg → Bool
+  | .expr _ => false
+  | _ => true
+def Arg.isConstStop : Arg → Bool
+  | .const _ => true
+  | _ => false
 
 /-! ### hand model of `StringMixin.__getitem__` -/
 
